@@ -74,7 +74,7 @@ def near_integer(x):
 
 
 def correspondence(ctx):
-    n = ctx.n(150, 1500)
+    n = ctx.n(150, 4000)
     maxlen = ctx.n(3, 6)
     cases = vlib.run_impl("c03_impl", {"fn": "gen_chains", "seed": ctx.seed, "n": n, "maxlen": maxlen})
     res = vlib.run_impl("c03_impl", {"fn": "run_chains", "cases": cases})
@@ -100,22 +100,17 @@ def correspondence(ctx):
         D = len(c["grid"]["size"])
         st0 = r["init"]
         g0 = f"(mkG (K:=QcF) {qc_vec(st0['fs'])} {qc_vec(st0['s'])} {qc_vec(st0['c'])} {qc_mat(st0['d'])} {'true' if st0['ac'] else 'false'})"
-        lines.append(f"Definition c{i} : bool := states_ok tol {D} (run_qc {D} {coq_list([coq_op(o) for o in ops])} {g0}) "
-                     f"{coq_list([coq_state(s) for s in states])}.")
-        names.append((i, f"c{i}"))
+        names.append((i, f"states_ok tol {D} (run_qc {D} {coq_list([coq_op(o) for o in ops])} {g0}) "
+                         f"{coq_list([coq_state(s) for s in states])}"))
         used.append(i)
         for o in ops:
             dist[o["op"]] = dist.get(o["op"], 0) + 1
         dist[f"len{len(ops)}"] = dist.get(f"len{len(ops)}", 0) + 1
-    lines.append("Definition results : list bool := " + coq_list([nm for _, nm in names]) + ".")
-    lines.append('Eval vm_compute in ("FAIL"%string, failing results).')
-    rc, out = vlib.coqc_text("\n".join(lines) + "\n", ctx.scratch, "cases_c03", timeout=1200)
-    bad = vlib.parse_nat_list(out, "FAIL")
-    if rc != 0 or bad is None:
-        failures.append({"why": "case file did not evaluate", "coq": out[-800:]})
-    else:
-        for j in bad:
-            i = names[j][0]
+    bad, errs = vlib.run_cases(ctx.scratch, lines, names, name="cases_c03")
+    for e in errs:
+        failures.append({"why": "case file did not evaluate", "coq": e[-800:]})
+    if True:
+        for i in bad:
             failures.append({"case": cases[i], "impl_states": res[i]["states"], "why": "model state differs from the implementation's grid"})
     dist["skipped(near-integer float size or size<2)"] = skipped
     return {"evaluations": len(used), "distinct_nontrivial": len({str(cases[i]) for i in used}),
@@ -128,7 +123,7 @@ def correspondence(ctx):
 
 
 def search(ctx, broken, corr_failures):
-    n = ctx.n(250, 4000)
+    n = ctx.n(250, 12000)
     r = vlib.run_impl("c03_impl", {"fn": "oracle", "seed": ctx.seed, "n": n, "maxlen": ctx.n(3, 6)}, timeout=1500)
     ctx.notes.append(f"implementation-side property evaluation, ops exercised: {r['counts']} (20% of grids in the cancellation stream: "
                      "centers ~1e4, spacings ~1e-2)")
